@@ -355,6 +355,8 @@ impl Ctx {
                     self.stats.merge(st);
                 }
                 Ok(Verdict::Fail(msg)) => {
+                    self.stats.merge(st);
+                    self.stats.evaluations = self.stats.evaluations.max(1);
                     self.failure = Some(Failure { broken: false, sub, case: v["case"].clone(), tape: None, message: format!("{msg} [corpus file {}]", f.display()) });
                     return;
                 }
